@@ -27,7 +27,7 @@ def all_calls():
     for a in ITEMS:
         for i in ITEMS:
             out += [("take", [a, i]), ("drop", [a, i])]
-        out += [("sweep", [a]), ("flag", [a]), ("charge", [a])]
+        out += [("sweep", [a]), ("flag", [a]), ("charge", [a]), ("audit", [a])]
     out.append(("burn", ["o1", "o2", "o3"]))
     out.append(("burn", ["o2", "o1", "o1"]))
     return out
@@ -123,7 +123,14 @@ def run_plan(task):
                     problems.append(f"step {i}: operator {trp.operator} for plan line {line_of(call)}")
                 if i > 0 and trp.previous_state is not trips[i - 1].next_state and not (trp.previous_state == trips[i - 1].next_state):
                     problems.append(f"step {i}: pre-state is not the preceding post-state")
+            for i, trp in enumerate(trips):
+                if trp.next_state.is_init:
+                    problems.append(f"step {i}: the post-state is flagged as the initial state")
+                if trp.previous_state.is_init != (i == 0):
+                    problems.append(f"step {i}: pre-state is_init={trp.previous_state.is_init}")
             if trips:
+                if not lines[0].startswith("((:init") or any(not lines[2 + 2 * i].startswith("(:state") for i in range(len(plan))):
+                    problems.append("exported text: the first state must be printed as ':init' and every later one as ':state'")
                 d0 = lib.state_digest(trips[0].previous_state)
                 if d0[0] != init_digest[0] or set(d0[1]) != set(init_digest[1]):
                     problems.append("first pre-state is not the problem's initial state")
